@@ -102,13 +102,8 @@ fn on_enum(inp: &mut syn::DeriveInput) -> syn::Result<proc_macro2::TokenStream> 
             syn::Fields::Named(_) => {
                 let steps = on_fields(&fields, false, encoding)?;
                 let idents = fields.fields().idents();
-                match encoding {
-                    Encoding::Map => quote! {
-                        #name::#con{#(#idents,)* ..} => { 1 + #idx.cbor_len(__ctx777) + #tag + #(#steps)* }
-                    },
-                    Encoding::Array => quote! {
-                        #name::#con{#(#idents,)* ..} => { #(#steps)* + #tag + 1 + #idx.cbor_len(__ctx777) }
-                    }
+                quote! {
+                    #name::#con{#(#idents,)* ..} => { #(#steps)* + #tag + 1 + #idx.cbor_len(__ctx777) }
                 }
             }
             syn::Fields::Unnamed(f) if index_only => {
@@ -117,13 +112,8 @@ fn on_enum(inp: &mut syn::DeriveInput) -> syn::Result<proc_macro2::TokenStream> 
             syn::Fields::Unnamed(_) => {
                 let steps  = on_fields(&fields, false, encoding)?;
                 let idents = fields.match_idents();
-                match encoding {
-                    Encoding::Map => quote! {
-                        #name::#con(#(#idents,)*) => { 1 + #idx.cbor_len(__ctx777) + #tag + #(#steps)* }
-                    },
-                    Encoding::Array => quote! {
-                        #name::#con(#(#idents,)*) => { #(#steps)* + #tag + 1 + #idx.cbor_len(__ctx777) }
-                    }
+                quote! {
+                    #name::#con(#(#idents,)*) => { #(#steps)* + #tag + 1 + #idx.cbor_len(__ctx777) }
                 }
             }
         };
@@ -170,8 +160,10 @@ fn on_fields(fields: &Fields, has_self: bool, encoding: Encoding) -> syn::Result
     let steps = match encoding {
         Encoding::Map => {
             let mut steps = Vec::new();
-            let len = fields.fields().len();
-            steps.push(quote!(#len.cbor_len(__ctx777)));
+            steps.push(quote! {
+                let mut __num777 = 0usize;
+                let mut __len777 = 0;
+            });
             for field in fields.fields() {
                 if field.attrs.skip() {
                     continue
@@ -184,32 +176,30 @@ fn on_fields(fields: &Fields, has_self: bool, encoding: Encoding) -> syn::Result
                 if has_self {
                     if field.is_name {
                         steps.push(quote! {
-                            + if #is_nil(&self.#ident) {
-                                0
-                            } else {
-                                #idx.cbor_len(__ctx777) + #tag + #cbor_len(&self.#ident, __ctx777)
+                            if !#is_nil(&self.#ident) {
+                                __num777 += 1;
+                                __len777 += #idx.cbor_len(__ctx777) + #tag + #cbor_len(&self.#ident, __ctx777)
                             }
                         })
                     } else {
                         let i = syn::Index::from(field.pos);
                         steps.push(quote! {
-                            + if #is_nil(&self.#i) {
-                                0
-                            } else {
-                                #idx.cbor_len(__ctx777) + #tag + #cbor_len(&self.#i, __ctx777)
+                            if !#is_nil(&self.#i) {
+                                __num777 += 1;
+                                __len777 += #idx.cbor_len(__ctx777) + #tag + #cbor_len(&self.#i, __ctx777)
                             }
                         })
                     }
                 } else {
                     steps.push(quote! {
-                        + if #is_nil(&#ident) {
-                            0
-                        } else {
-                            #idx.cbor_len(__ctx777) + #tag + #cbor_len(&#ident, __ctx777)
+                        if !#is_nil(&#ident) {
+                            __num777 += 1;
+                            __len777 += #idx.cbor_len(__ctx777) + #tag + #cbor_len(&#ident, __ctx777)
                         }
                     })
                 }
             }
+            steps.push(quote! { __num777.cbor_len(__ctx777) + __len777 });
             steps
         }
         Encoding::Array => {
